@@ -4,6 +4,7 @@ import (
 	"bytes"
 	"encoding/hex"
 	"fmt"
+	"reflect"
 	"strings"
 	"time"
 
@@ -19,6 +20,9 @@ type Deviation struct {
 	Seed  uint64
 	// Cold: the replica is a brand-new application instance with the state transplanted (restart / other node).
 	Cold bool
+	// Restart: the instance is constructed like a node process started on existing data - InitChain (and with it
+	// every module's InitGenesis) never ran in it; whatever a module sets up in memory only at genesis is absent.
+	Restart bool
 }
 
 // Deviations used by the determinism check: every replica is cold (fresh instance = fresh process-local state);
@@ -28,13 +32,14 @@ type Deviation struct {
 // the order, so every combined deviation uses a seed whose low three bits are 1 (the rotation that reorders
 // every map with two or more entries); the higher bits vary the start bucket / offset of larger maps.
 var Deviations = []Deviation{
-	{Name: "cold+clock+7m+seed1", Clock: 7 * time.Minute, Seed: 1, Cold: true},
+	{Name: "restarted-node+clock+7m+seed1", Clock: 7 * time.Minute, Seed: 1, Cold: true, Restart: true},
 	{Name: "cold+clock-7m+seed9", Clock: -7 * time.Minute, Seed: 9, Cold: true},
 	{Name: "cold+clock+400d+seed17", Clock: 400 * 24 * time.Hour, Seed: 17, Cold: true},
 }
 
 var singleDeviations = []Deviation{
 	{Name: "cold-instance", Cold: true},
+	{Name: "restarted-node", Cold: true, Restart: true},
 	{Name: "host-clock", Clock: 400 * 24 * time.Hour, Cold: true},
 	{Name: "host-clock", Clock: 7 * time.Minute, Cold: true},
 	{Name: "host-clock", Clock: -7 * time.Minute, Cold: true},
@@ -71,7 +76,10 @@ type Replicas struct {
 	Property string
 	Exports  []string // modules whose exported genesis is compared in every state
 	All      bool     // run every deviation on every transition (thorough); otherwise rotate
-	step     int
+	// NoRestart: the driver keeps environment-bound state from its fixture (cannot be brought up without InitChain)
+	NoRestart bool
+	step      int
+	twin      Driver // a driver whose Init ran on a normally initialised instance (source of Init-derived fields)
 }
 
 func (r *Replicas) ID() string                    { return r.Property + "/" + r.Inner.ID() }
@@ -107,11 +115,34 @@ func wholeState(e *Env, ctx sdk.Context) ([]byte, map[string][]byte) {
 func (r *Replicas) runReplica(e *Env, pre *State, op Op, d Deviation) replicaResult {
 	setEnv(d)
 	defer baselineEnv()
-	ce, cd := r.Mk()
-	if w, ok := cd.(*Replicas); ok {
-		cd = w.Inner
+	var ce *Env
+	var cd Driver
+	if d.Restart && !r.NoRestart {
+		if r.twin == nil {
+			te, td := r.Mk()
+			if w, ok := td.(*Replicas); ok {
+				td = w.Inner
+			}
+			td.Init(te)
+			r.twin = td
+		}
+		RestartedNode = true
+		ce, cd = r.Mk()
+		RestartedNode = false
+		if w, ok := cd.(*Replicas); ok {
+			cd = w.Inner
+		}
+		// the fixture cannot run on a chain that was never initialised: take the Init-derived fields from the twin
+		if tv, cv := reflect.ValueOf(r.twin), reflect.ValueOf(cd); tv.Kind() == reflect.Ptr && cv.Kind() == reflect.Ptr && tv.Type() == cv.Type() {
+			cv.Elem().Set(tv.Elem())
+		}
+	} else {
+		ce, cd = r.Mk()
+		if w, ok := cd.(*Replicas); ok {
+			cd = w.Inner
+		}
+		cd.Init(ce) // sets the driver's own fields; its fixture state is replaced by the transplant
 	}
-	cd.Init(ce) // sets the driver's own fields; its fixture state is replaced by the transplant
 	cctx := Transplant(e, pre.Ctx, ce, Branch(ce.Root))
 	cs := &State{Ctx: cctx, Depth: pre.Depth, TxSeq: pre.TxSeq}
 	if pre.Model != nil {
@@ -170,7 +201,7 @@ func (r *Replicas) Apply(e *Env, s *State, op Op) []Finding {
 		// attribute: which single dimension reproduces the difference, and where it shows
 		dim, where := "combined", describeDiff(per0, rep, post.Last)
 		for _, sd := range singleDeviations {
-			if !envseam.Controlled && sd.Name != "cold-instance" {
+			if !envseam.Controlled && sd.Name != "cold-instance" && sd.Name != "restarted-node" {
 				continue
 			}
 			x := r.runReplica(e, s, op, sd)
